@@ -180,16 +180,16 @@ Lemma view_congr ds fs1 fs2 :
   (forall d, In d ds -> spec_entries fs1 d = spec_entries fs2 d) -> view ds fs1 = view ds fs2.
 Proof.
   intros H. unfold view.
-  rewrite (flat_map_ext_in (dir_devs fs1) (dir_devs fs2)), (flat_map_ext_in (dir_errs fs1) (dir_errs fs2)); auto;
-    intros d I; unfold dir_devs, dir_errs; rewrite (H d I); reflexivity.
+  rewrite (flat_map_ext_in (dir_defs fs1) (dir_defs fs2)), (flat_map_ext_in (dir_errs fs1) (dir_errs fs2)); auto;
+    intros d I; unfold dir_defs, dir_errs; rewrite (H d I); reflexivity.
 Qed.
 
 Lemma view_filter ds p fs_ :
   (forall d, In d ds -> p d = false -> spec_entries fs_ d = []) -> view (filter p ds) fs_ = view ds fs_.
 Proof.
   intros H. unfold view.
-  rewrite (flat_map_filter (dir_devs fs_)), (flat_map_filter (dir_errs fs_)); auto;
-    intros d I P; unfold dir_devs, dir_errs; rewrite (H d I P); reflexivity.
+  rewrite (flat_map_filter (dir_defs fs_)), (flat_map_filter (dir_errs fs_)); auto;
+    intros d I P; unfold dir_defs, dir_errs; rewrite (H d I P); reflexivity.
 Qed.
 
 (* ---------- the tracked map after watch.update ---------- *)
